@@ -97,3 +97,11 @@ pub fn c11_try_lock_skips(m: &Mutex<Option<u64>>) -> Option<u64> {
     let mut g = m.try_lock().ok()?;
     g.take()
 }
+
+// ---- C14-R9: writing past a BufWriter ---------------------------------------------------------------
+pub fn c14_bufwriter_bypass(w: &mut std::io::BufWriter<std::fs::File>) -> std::io::Result<()> {
+    use std::io::Write;
+    let mut f = w.get_ref();
+    f.write_all(w.buffer())?;
+    f.flush()
+}
